@@ -1074,3 +1074,28 @@ func onlyDeferred(mc *ssa.MakeClosure) bool {
 	}
 	return true
 }
+
+// noContextCause: "the 'cancelled' or 'timeout' kind". The kind of the end of a context is what ctx.Err() says —
+// context.Canceled or context.DeadlineExceeded, which ConvertContextError maps to the library's two kinds. context.Cause
+// returns whatever error the canceller supplied (WithCancelCause, WithTimeoutCause): converted or returned in place of
+// Err(), it makes the outcome depend on how the caller built its context — a cancellation is reported under an arbitrary
+// error, and the code that recognises the two kinds (to stop, to refrain from a forced removal) no longer does.
+func (c *Ctx) noContextCause(rule string, rels []string) {
+	n := 0
+	for _, rel := range rels {
+		for _, f := range c.srcFuncs(rel) {
+			allInstrs(f, func(in ssa.Instruction) {
+				cc := callCommon(in)
+				if cc == nil || calleeFull(cc) != "context.Cause" {
+					return
+				}
+				n++
+				c.FuncsSeen[fname(outermost(f))] = true
+				c.violate(rule, fname(outermost(f))+"/context-cause", c.ipos(in), "the end of the context is read through context.Cause: for a context ended with a cause of its own (WithCancelCause, WithTimeoutCause) that is an arbitrary error, which is neither converted to 'cancelled' / 'timeout' nor recognised by the code that stops on those kinds")
+			})
+		}
+	}
+	if n == 0 {
+		c.info(rule, strings.Join(rels, "+")+"/no-context-cause", "-", "the end of a context is never read through context.Cause")
+	}
+}
